@@ -57,7 +57,7 @@ def stability(results, seed):
 LOOP_RE = re.compile(r'^\s*(?:\'[a-z_]+:\s*)?(for|while|loop)\b')
 
 
-def plant_probes(woven, level):
+def plant_probes(woven, level, only=None):
     """returns (text, probes) where probes = list of (line_no_1based, description).
     level 0: first line of every fn body inside an extraction region; level k>=1: loops at nesting depth k."""
     lines = list(woven.lines)
@@ -66,6 +66,7 @@ def plant_probes(woven, level):
     probes = []
     n = len(lines)
     # state machine over code lines only: find `{` lines that open fn bodies / loop bodies (R13 puts them on their own line)
+    seen_k = [0]     # running index of probe sites at this level (for `only`)
     pending = None   # ('fn'|'loop', description)
     loop_depth_stack = []   # brace depth at which each open loop body started
     depth = 0
@@ -90,13 +91,17 @@ def plant_probes(woven, level):
                 # whose body is `unreachable!()`): nothing to probe
                 declared_unreachable = any(re.search(r'\brequires\s+false\b', lines[q]) for q in range(max(0, i - 12), i) if kinds[q] != 'code')
                 if level == 0 and not declared_unreachable:
-                    probes.append((len(out) + 1, 'entry of fn ' + desc))
-                    out.append('        proof { assert(false); } // vf-probe')
+                    seen_k[0] += 1
+                    if only is None or only == seen_k[0] - 1:
+                        probes.append((len(out) + 1, 'entry of fn ' + desc))
+                        out.append('        proof { assert(false); } // vf-probe')
             else:
                 loop_depth_stack.append(depth)
                 if level == len(loop_depth_stack):
-                    probes.append((len(out) + 1, 'top of loop body: ' + desc))
-                    out.append('        proof { assert(false); } // vf-probe')
+                    seen_k[0] += 1
+                    if only is None or only == seen_k[0] - 1:
+                        probes.append((len(out) + 1, 'top of loop body: ' + desc))
+                        out.append('        proof { assert(false); } // vf-probe')
         if code:
             net, low = U._brace_profile(line)
             depth += net
@@ -131,10 +136,24 @@ def probes(results):
             if not j or (j.get('errors', 0) == 0 and j.get('encountered-error')):
                 out['undecided'].append('probe run of unit %s (level %d) did not reach verification' % (name, level))
                 continue
-            for (ln, desc) in pr:
+            for (k_idx, (ln, desc)) in enumerate(pr):
                 out['planted'] += 1
                 if ln in failed_lines:
                     out['failed_as_expected'] += 1
+                    continue
+                # in a function verified without loop isolation a failed `assert(false)` of an earlier loop body is assumed on the
+                # paths that run on through it, so a later probe can verify for that reason alone: decide it by planting it ALONE
+                woven_r = [r for r in results if r['unit'] == name][0]['woven']
+                text1, pr1 = plant_probes(woven_r, level, only=k_idx)
+                res1 = _verify_text(name, text1, 'probe%d_%d' % (level, k_idx))
+                fl1 = set()
+                for d in res1['diagnostics']:
+                    if d.get('level') == 'error':
+                        for sp in d.get('spans', []):
+                            fl1.update(range(sp['line_start'], sp['line_end'] + 1))
+                if pr1 and pr1[0][0] in fl1:
+                    out['failed_as_expected'] += 1
+                    out.setdefault('replanted_alone', []).append(desc)
                 else:
                     out['undecided'].append('VACUOUS? probe at %s in unit %s verified: a precondition or invariant above it may be contradictory' % (desc, name))
             out['samples'].append({'unit': name, 'level': level, 'probes': len(pr)})
